@@ -176,7 +176,8 @@ def _value_work(args):
     import jinja2
     case, obs_by_d = args
     out = []
-    env, srcs = jrun.make_env(case)
+    # compile_expression has no template name: give the environment the case's autoescape mode
+    env, srcs = jrun.make_env(case, autoescape=bool(case["tpls"]["main"]["auto"]))
     src = J.ux(case["tpls"]["main"]["body"][0]["e"])
     try:
         fn = env.compile_expression(src, undefined_to_none=False)
